@@ -33,5 +33,7 @@ for name in sorted(os.listdir(os.path.join(V, 'seeded'))):
     print(name, res[name], flush=True)
 os.makedirs(os.path.join(V, 'build'), exist_ok=True)
 json.dump(res, open(os.path.join(V, 'build', 'seed_regression.json'), 'w'), indent=1)
-bad = [n for n, r in res.items() if r.get('exit') not in (1, None)]
+exp_missed = set(n for n in res if json.load(open(os.path.join(V, 'seeded', n, 'meta.json'))).get('expected') == 'missed')      # changes recorded as outside the technique (DESIGN.md)
+bad = [n for n, r in res.items() if r.get('exit') not in (1, None) and n not in exp_missed]
+print('recorded as missed (outside the technique):', sorted(exp_missed))
 print('seeds not reported as violation:', bad)
